@@ -7,6 +7,12 @@ LEAD = amlgen.LEAD
 REST = amlgen.REST
 
 
+def amlwf(s):
+    """generator-side bookkeeping only (which list a string goes to); the judge decides well-formedness itself"""
+    body = s[1:] if s.startswith("\\") else s
+    return all(len(seg) == 4 for seg in body.split("."))
+
+
 def run(ctx):
     rng = vlib.Rng(ctx.seed)
     th = ctx.thorough()
@@ -32,6 +38,16 @@ def run(ctx):
                 segs[pos] = "".join(rng.choice(REST) for _ in range(ln))
                 for root in ("", "\\"):
                     bad.append(root + ".".join(segs))
+    # strings of the total length of a well-formed 1/2/3-segment path with the dots in every other arrangement
+    import itertools
+    for total in (4, 9, 14):
+        for ndots in range(0, 4):
+            for pos in itertools.combinations(range(total), ndots):
+                if ndots > 2 and rng.below(4):       # a quarter of the 3-dot arrangements
+                    continue
+                s = "".join("." if i in pos else REST[(7 * i + total) % 26] for i in range(total))
+                for root in ("", "\\"):
+                    (strs if amlwf(root + s) else bad).append(root + s)
     allstrs = strs + bad
     progs = []
     for what in ("path", "path_from"):
